@@ -9,7 +9,8 @@ from props.c07 import run_driver, eval_files, dists_lit, q, ikey, HDR, model_dis
 def run(rep, work, tier, seed, only=None):
     rep.rule = ('cases: (a) one per (tiny code, deformation, axis, direction a/8, rate k/16): the implementation probabilities of ALL 4^n '
                 'errors (exact, dyadic parameters) vs the model product and their sum; log form on a sample incl. impossible errors; '
-                '(b) random errors on larger codes (float tolerance 1e-12). non-trivial = rate > 0')
+                '(b) random errors on larger codes (float tolerance 1e-12); (c) SplittingSimulation.get_next_error on mixed-noise channels from dense previous errors: '
+                'the accept probability it draws with and the log-probability it returns vs the stated channel. non-trivial = rate > 0')
     rep.trusted += ['drivers/c07_noise.py; Fraction(float) exact for the dyadic parameters used']
     data = run_driver(work, tier, seed)
     items = [p for p in data['probs'] if p['vals']]
@@ -72,6 +73,25 @@ def run(rep, work, tier, seed, only=None):
                           % (l['cls'], tuple(l['size']), l['x'], l['z'], l['prob'], l['log'], l['expected'], l['expected_log']),
                           {'instance': ikey(l, 'error_probability'), 'x': l['x'], 'z': l['z'], 'direction_eighths': l['dir'], 'p': l['p']})
 
+    # Metropolis step of the splitting method: accept probability and returned log-probability against the stated channel
+    for m in data.get('metro', []):
+        rep.case(('metro', m['cls'], tuple(m['size']), m['name'], m['axis'], tuple(m['x']), tuple(m['z']), str(m['proposal'])), True)
+        rep.count('metropolis_step')
+        close = lambda u, v: (u == v) or (math.isfinite(u) and math.isfinite(v) and abs(u - v) <= 1e-9 * max(1, abs(v)))
+        okq = m['q'] is None or abs(m['q'] - m['q_expected']) <= 1e-9
+        okl = close(m['logp'], m['logp_expected'])
+        rep.oblige(1, 1 if (okq and okl) else 0)
+        if not (okq and okl):
+            what = []
+            if not okq:
+                what.append('accepts the proposal %s with probability %r, the likelihood ratio min(1, P(new)/P(previous)) is %r' % (m['proposal'], m['q'], m['q_expected']))
+            if not okl:
+                what.append('returns log-probability %r for the error it moved to (X%s Z%s), the log of the product of channel probabilities is %r'
+                            % (m['logp'], m['next_x'], m['next_z'], m['logp_expected']))
+            rep.violation(ikey(m, 'metropolis-step'),
+                          '%s%s deformation=%s dir=%s/8 p=%r: SplittingSimulation.get_next_error from previous error X%s Z%s %s'
+                          % (m['cls'], tuple(m['size']), m['name'], m['dir'], m['p'], m['x'], m['z'], '; '.join(what)),
+                          {'instance': ikey(m, 'metropolis-step'), 'x': m['x'], 'z': m['z'], 'direction_eighths': m['dir'], 'p': m['p'], 'detail': m})
 
 def replay(path, work):
     print(open(path).read()[:3000])
